@@ -59,6 +59,8 @@ func main() {
 		os.Exit(runReplay(fs.Arg(0), *repo, *verif))
 	case "list":
 		os.Exit(runList(*prop, *repo, *verif))
+	case "annotate":
+		os.Exit(runAnnotate(*repo, *verif))
 	default:
 		usage()
 	}
